@@ -155,14 +155,14 @@ def run(tier):
     update_replay(chk, tier)
     search_traces(chk, tier)
     # routing of the statistics and boundedness of every step size on real chains
-    sub, failures, api = c06.run_shared("C07", tier, n=60 if tier == "quick" else 600)
+    sub, failures, api = c06.run_shared("C07", tier, n=96 if tier == "quick" else 600)
     for k in ["states", "transitions", "traces_validated_against_impl", "evaluations", "distinct_nontrivial"]:
         chk.cov[k] += sub.cov[k]
     for name, kw in sub.cov["parts"].items():
         chk.part("routing_" + name, **kw)
     for f in failures:
         key = c06.classify(f)
-        if any(t in key for t in ("step_unbounded", "wrong_statistic_value", "schedule_mismatch")) :
+        if any(t in key for t in ("step_unbounded", "wrong_statistic_value", "schedule_mismatch", "step_is_not_the_documented_update")):
             ev = f["event"]
             if "schedule_mismatch" in key and ev.get("e") == "adapt":
                 key = "routing:%s:%s" % (ev.get("branch"), ev.get("fedcalls"))
